@@ -1,0 +1,141 @@
+//go:build verif
+
+package keeper
+
+// Contracts for the verification machinery in /verif (comment-only file; no code).
+// Syntax: Gobra-style clauses in "//@" lines, bound to the function named by the
+// preceding "// verif:func" line. See /verif/DESIGN.md section 3.
+//
+// verif:import host github.com/teleport-network/teleport/x/xibc/core/host
+// verif:import types github.com/teleport-network/teleport/x/xibc/core/packet/types
+// verif:import exported github.com/teleport-network/teleport/x/xibc/exported
+// verif:import clienttypes github.com/teleport-network/teleport/x/xibc/core/client/types
+//
+// verif:spec decodeOK(bz []byte) bool
+// verif:spec decodedPacket(bz []byte) types.Packet
+// verif:spec abiPackOK(p types.Packet) bool
+// verif:spec abiPack(p types.Packet) []byte
+// verif:spec unmarshalIface_ClientState(bz []byte) exported.ClientState
+// verif:spec clientTypeOf(cs exported.ClientState) string
+// verif:spec verifiedCommitment(cs exported.ClientState, store sdk.KVStore, height exported.Height, proof []byte, srcChain string, dstChain string, sequence uint64, commitment []byte) bool
+// verif:spec verifiedAck(cs exported.ClientState, store sdk.KVStore, height exported.Height, proof []byte, srcChain string, dstChain string, sequence uint64, ack []byte) bool
+// verif:import sdk github.com/cosmos/cosmos-sdk/types
+//
+// verif:pred receiptsKept(a, b) := forall s string :: forall d string :: forall q uint64 :: kvhas(a, host.PacketReceiptKey(s, d, q)) ==> kvget(b, host.PacketReceiptKey(s, d, q)) == kvget(a, host.PacketReceiptKey(s, d, q))
+// verif:pred acksKept(a, b) := forall s string :: forall d string :: forall q uint64 :: kvhas(a, host.PacketAcknowledgementKey(s, d, q)) ==> kvget(b, host.PacketAcknowledgementKey(s, d, q)) == kvget(a, host.PacketAcknowledgementKey(s, d, q))
+
+// ---- store accessors: whole-view effects -------------------------------------------------
+
+// verif:func (Keeper).SetPacketReceipt
+//@ modifies xibc(ctx)
+//@ ensures [set] xibc(ctx) == kvset(old(xibc(ctx)), host.PacketReceiptKey(srcChain, dstChain, sequence), []byte{1})
+
+// verif:func (Keeper).GetPacketReceipt
+//@ ensures [found] result1 == kvhas(xibc(ctx), host.PacketReceiptKey(srcChain, dstChain, sequence))
+
+// verif:func (Keeper).HasPacketReceipt
+//@ ensures [has] result == kvhas(xibc(ctx), host.PacketReceiptKey(srcChain, dstChain, sequence))
+
+// verif:func (Keeper).GetNextSequenceSend
+//@ ensures [absent-is-1] !kvhas(xibc(ctx), host.NextSequenceSendKey(srcChain, dstChain)) ==> result == 1
+//@ ensures [stored]      kvhas(xibc(ctx), host.NextSequenceSendKey(srcChain, dstChain)) ==> result == sdk.BigEndianToUint64(kvget(xibc(ctx), host.NextSequenceSendKey(srcChain, dstChain)))
+
+// verif:func (Keeper).SetNextSequenceSend
+//@ modifies xibc(ctx)
+//@ ensures [set] xibc(ctx) == kvset(old(xibc(ctx)), host.NextSequenceSendKey(srcChain, dstChain), sdk.Uint64ToBigEndian(sequence))
+
+// verif:func (Keeper).GetPacketCommitment
+//@ ensures [get] result == kvget(xibc(ctx), host.PacketCommitmentKey(srcChain, dstChain, sequence))
+
+// verif:func (Keeper).HasPacketCommitment
+//@ ensures [has] result == kvhas(xibc(ctx), host.PacketCommitmentKey(srcChain, dstChain, sequence))
+
+// verif:func (Keeper).SetPacketCommitment
+//@ requires commitmentHash != nil
+//@ modifies xibc(ctx)
+//@ ensures [set] xibc(ctx) == kvset(old(xibc(ctx)), host.PacketCommitmentKey(srcChain, dstChain, sequence), commitmentHash)
+
+// verif:func (Keeper).deletePacketCommitment
+//@ modifies xibc(ctx)
+//@ ensures [del] xibc(ctx) == kvdel(old(xibc(ctx)), host.PacketCommitmentKey(srcChain, dstChain, sequence))
+
+// verif:func (Keeper).SetPacketAcknowledgement
+//@ requires ackHash != nil
+//@ modifies xibc(ctx)
+//@ ensures [set] xibc(ctx) == kvset(old(xibc(ctx)), host.PacketAcknowledgementKey(srcChain, dstChain, sequence), ackHash)
+
+// verif:func (Keeper).GetPacketAcknowledgement
+//@ ensures [found] result1 == kvhas(xibc(ctx), host.PacketAcknowledgementKey(srcChain, dstChain, sequence))
+//@ ensures [get]   result1 ==> result == kvget(xibc(ctx), host.PacketAcknowledgementKey(srcChain, dstChain, sequence))
+
+// verif:func (Keeper).HasPacketAcknowledgement
+//@ ensures [has] result == kvhas(xibc(ctx), host.PacketAcknowledgementKey(srcChain, dstChain, sequence))
+
+// verif:func (Keeper).SetPacketRelayer
+//@ modifies xibc(ctx)
+//@ ensures [set] xibc(ctx) == kvset(old(xibc(ctx)), host.PacketRelayerKey(srcChain, dstChain, sequence), []byte(relayer))
+
+// ---- RecvPacket (C01, C02) ------------------------------------------------------------------
+
+// verif:func (Keeper).RecvPacket
+//@ modifies xibc(ctx)
+//@ let p  = decodedPacket(msg.Packet)
+//@ let rk = host.PacketReceiptKey(p.SrcChain, p.DstChain, p.Sequence)
+//@ let ck = host.PacketCommitmentKey(p.SrcChain, p.DstChain, p.Sequence)
+//@ let cs = unmarshalIface_ClientState(kvget(old(xibc(ctx)), host.FullClientStateKey(p.SrcChain)))
+//@ let relay = p.DstChain != old(k.clientKeeper.GetChainName(ctx)) && kvhas(old(xibc(ctx)), host.FullClientStateKey(p.DstChain))
+//@ ensures [reject-clean]  err != nil ==> xibc(ctx) == old(xibc(ctx))
+//@ ensures [receipt-fresh] err == nil && decodeOK(msg.Packet) ==> !kvhas(old(xibc(ctx)), rk)
+//@ ensures [receipt-set]   err == nil && decodeOK(msg.Packet) ==> kvget(xibc(ctx), rk) == []byte{1}
+//@ ensures [effect]        err == nil && decodeOK(msg.Packet) ==>
+//@       xibc(ctx) == ite(relay, kvset(kvset(old(xibc(ctx)), rk, []byte{1}), ck, types.CommitAcknowledgement(abiPack(p))), kvset(old(xibc(ctx)), rk, []byte{1}))
+//@ ensures [receipts-kept] receiptsKept(old(xibc(ctx)), xibc(ctx))
+//@ ensures [acks-kept]     acksKept(old(xibc(ctx)), xibc(ctx))
+//@ ensures [valid]         err == nil && decodeOK(msg.Packet) ==> p.Sequence != 0 && p.SrcChain != p.DstChain && (p.DstChain == old(k.clientKeeper.GetChainName(ctx)) || p.SrcChain == old(k.clientKeeper.GetChainName(ctx)))
+//@ ensures [client-known]  err == nil && decodeOK(msg.Packet) ==> kvhas(old(xibc(ctx)), host.FullClientStateKey(p.SrcChain))
+//@ ensures [verified]      err == nil && decodeOK(msg.Packet) ==>
+//@       verifiedCommitment(cs, old(k.clientKeeper.ClientStore(ctx, p.SrcChain)), msg.ProofHeight,
+//@                          ite(clientTypeOf(cs) == exported.TSS, []byte(msg.Signer), msg.ProofCommitment),
+//@                          p.SrcChain, p.DstChain, p.Sequence, types.CommitAcknowledgement(abiPack(p)))
+
+// ---- WriteAcknowledgement (C05) ---------------------------------------------------------------
+// The event payload is packed after the store write; if that packing failed the function would
+// return an error with the acknowledgement already written ([late-error]); at message level this
+// is undone by transaction atomicity (assumed). The caller has packed the same packet before.
+
+// verif:func (Keeper).WriteAcknowledgement
+//@ modifies xibc(ctx)
+//@ let ak = host.PacketAcknowledgementKey(packet.GetSrcChain(), packet.GetDstChain(), packet.GetSequence())
+//@ let pk = *as(packet, *types.Packet)
+//@ ensures [reject-clean]  err != nil && abiPackOK(pk) ==> xibc(ctx) == old(xibc(ctx))
+//@ ensures [late-error]    err != nil ==> xibc(ctx) == old(xibc(ctx)) || (!abiPackOK(pk) && xibc(ctx) == kvset(old(xibc(ctx)), ak, types.CommitAcknowledgement(acknowledgement)))
+//@ ensures [fresh]         err == nil ==> !kvhas(old(xibc(ctx)), ak)
+//@ ensures [nonempty]      err == nil ==> len(acknowledgement) != 0
+//@ ensures [effect]        err == nil ==> xibc(ctx) == kvset(old(xibc(ctx)), ak, types.CommitAcknowledgement(acknowledgement))
+//@ ensures [receipts-kept] receiptsKept(old(xibc(ctx)), xibc(ctx))
+//@ ensures [acks-kept]     acksKept(old(xibc(ctx)), xibc(ctx))
+
+// ---- AcknowledgePacket (C02, C05) --------------------------------------------------------------
+// On the relay branch (packet not sent by this chain) the function can return an error after the
+// commitment was deleted; at message level that is undone by the SDK's transaction atomicity
+// (assumed). [reject-clean] therefore excludes exactly that branch.
+
+// verif:func (Keeper).AcknowledgePacket
+//@ modifies xibc(ctx)
+//@ let p  = decodedPacket(msg.Packet)
+//@ let ck = host.PacketCommitmentKey(p.SrcChain, p.DstChain, p.Sequence)
+//@ let ak = host.PacketAcknowledgementKey(p.SrcChain, p.DstChain, p.Sequence)
+//@ let cs = unmarshalIface_ClientState(kvget(old(xibc(ctx)), host.FullClientStateKey(p.DstChain)))
+//@ let own = p.SrcChain == old(k.clientKeeper.GetChainName(ctx))
+//@ ensures [reject-clean]  err != nil ==> xibc(ctx) == old(xibc(ctx)) || (decodeOK(msg.Packet) && !own && xibc(ctx) == kvdel(old(xibc(ctx)), ck))
+//@ ensures [reject-clean-own] err != nil && own ==> xibc(ctx) == old(xibc(ctx))
+//@ ensures [decoded]       err == nil ==> decodeOK(msg.Packet)
+//@ ensures [commit-match]  err == nil ==> kvget(old(xibc(ctx)), ck) == types.CommitAcknowledgement(abiPack(p))
+//@ ensures [consumed]      err == nil ==> !kvhas(xibc(ctx), ck)
+//@ ensures [effect]        err == nil ==> xibc(ctx) == ite(own, kvdel(old(xibc(ctx)), ck), kvset(kvdel(old(xibc(ctx)), ck), ak, types.CommitAcknowledgement(msg.Acknowledgement)))
+//@ ensures [receipts-kept] receiptsKept(old(xibc(ctx)), xibc(ctx))
+//@ ensures [acks-kept-own] own ==> acksKept(old(xibc(ctx)), xibc(ctx))
+//@ ensures [ack-verified]  err == nil ==>
+//@       verifiedAck(cs, old(k.clientKeeper.ClientStore(ctx, p.DstChain)), msg.ProofHeight,
+//@                   ite(clientTypeOf(cs) == exported.TSS, []byte(msg.Signer), msg.ProofAcked),
+//@                   p.SrcChain, p.DstChain, p.Sequence, types.CommitAcknowledgement(msg.Acknowledgement))
